@@ -206,7 +206,12 @@ def case(ctx, rnd, i):
         ctx.count("pairs")
         ctx.ev()
         try:
-            _check_pair(ctx, sch, d, root, n, a, b, resolved[a], resolved[b], bad, rnd)
+            # half of the pairs use a second, separately resolved object for the other end (an
+            # equal position is then not the identical ResolvedPos)
+            rb_ = d.resolve(b) if rnd.random() < 0.5 else resolved[b]
+            if a == b and rb_ is not resolved[a]:
+                ctx.count("pairs_equal_position_distinct_objects")
+            _check_pair(ctx, sch, d, root, n, a, b, resolved[a], rb_, bad, rnd)
         except Exception as e:
             bad("pair-accessor-raised", "pair (%d,%d): %s: %s" % (a, b, type(e).__name__, e), **{"from": a, "to": b, "exc": type(e).__name__})
 
